@@ -41,6 +41,14 @@ Section C09.
       = c_marg (S q) (S q) c (iwp_transition_1d q c h2 s2)
           (c_marg (S q) (S q) c (iwp_transition_1d q c h1 s2) rv).
   Proof. intros. apply c_merge_is_composition. Qed.
+
+  (* the closed-form transition matrices form a semigroup, for EVERY q and all
+     h1, h2 (binomial theorem in divided-power form): stepping h1 then h2 moves the
+     mean exactly like stepping h1 + h2 *)
+  Theorem C09_transition_matrix_semigroup :
+    forall q (h1 h2 : F),
+      mmul (S q) (S q) (S q) (iwp_A_closed q h2) (iwp_A_closed q h1) = iwp_A_closed q (fadd h1 h2).
+  Proof. exact iwp_A_semigroup. Qed.
 End C09.
 
 Print Assumptions C09_iwp_transition_matrix_closed_form.
@@ -48,3 +56,4 @@ Print Assumptions C09_iwp_process_noise_closed_form.
 Print Assumptions C09_iwp_offset_is_zero.
 Print Assumptions C09_process_noise_linear_in_scale.
 Print Assumptions C09_transitions_compose_as_conditionals.
+Print Assumptions C09_transition_matrix_semigroup.
